@@ -7,6 +7,7 @@ import (
 	"strings"
 	"testing"
 
+	enumspb "go.temporal.io/api/enums/v1"
 	historypb "go.temporal.io/api/history/v1"
 
 	"go.temporal.io/server/common/log"
@@ -326,6 +327,21 @@ func TestC12(t *testing.T) {
 			if err != nil || cmp == "differs" {
 				e.Violation(map[string]any{"what": fmt.Sprintf("random %s: real translation vs reference: %s %v", g.Types[r].Go, cmp, err), "ops": []string{fmt.Sprintf("# rand %d %d seed %d", r, i, e.Seed)}})
 			}
+		}
+	}
+	// several LARGE history batches per message, several messages in flight (see translateSeveralBig)
+	for rep := 0; rep < 3; rep++ {
+		what := translateSeveralBig(tr, true, ro, func(mi, i int) *historypb.HistoryEvent {
+			return &historypb.HistoryEvent{EventType: enumspb.EVENT_TYPE_WORKFLOW_EXECUTION_STARTED,
+				Attributes: &historypb.HistoryEvent_WorkflowExecutionStartedEventAttributes{WorkflowExecutionStartedEventAttributes: &historypb.WorkflowExecutionStartedEventAttributes{
+					ParentWorkflowNamespace: []string{"local-ns", "other-local", "a", "unmapped"}[(mi+i+rep)%4], Identity: fmt.Sprintf("id-%d-%d-%d", rep, mi, i)}}}
+		})
+		op := fmt.Sprintf("# several-big-batches %d", rep)
+		e.Emit(op, "#")
+		e.Evals++
+		e.Count("several_big_batches")
+		if what != "" {
+			e.Violation(map[string]any{"what": "namespace names in large history batches: " + what, "ops": []string{op}})
 		}
 	}
 	// deep recursion: the same leaves below a long chain through a recursive type (Failure.cause of a deep child-workflow
